@@ -600,6 +600,20 @@ func (g *gen) equalVals(a, b *Val, t types.Type) *Term {
 			return Eq(a.L[0], b.L[0])
 		}
 		e := App("iface.eq", SBool, a.L[0], b.L[0])
+		// one side is a value of a basic type boxed here: interfaces are equal
+		// iff the other side has that dynamic type and holds an equal value
+		for _, pr := range [][2]*Val{{a, b}, {b, a}} {
+			x, y := pr[0], pr[1]
+			if bv, ok := g.boxed[y.L[0].id]; ok && len(bv.L) == 1 {
+				if _, basic := bv.T.Underlying().(*types.Basic); basic {
+					ls := leavesOf(bv.T)
+					if len(ls) == 1 {
+						rhs := And(Neq(x.L[0], Int(0)), Eq(ifaceTag(x.L[0]), tagOf(bv.T)), Eq(App(unboxName(bv.T, ls[0].Path), ls[0].Sort(), x.L[0]), bv.L[0]))
+						g.assumeGlobal(And(Implies(e, rhs), Implies(rhs, e)))
+					}
+				}
+			}
+		}
 		g.assumeGlobal(Implies(Eq(a.L[0], b.L[0]), e))
 		// equal interfaces have equal tags
 		g.assumeGlobal(Implies(e, Eq(ifaceTag(a.L[0]), ifaceTag(b.L[0]))))
@@ -608,6 +622,11 @@ func (g *gen) equalVals(a, b *Val, t types.Type) *Term {
 	if len(a.L) != len(b.L) {
 		g.note("comparison of values with different shapes")
 		return Fresh("cmp", SBool)
+	}
+	if isSlice(t) && isSlice(a.T) && isSlice(b.T) {
+		// slices compare only against nil: the nil slice is the one without
+		// a backing array (the same reading as `s == nil` in contracts)
+		return Eq(a.Arr(), b.Arr())
 	}
 	var fs []*Term
 	for i := range a.L {
@@ -646,7 +665,13 @@ func (g *gen) unop(st *State, x *ssa.UnOp) *Val {
 		default:
 			g.oblige(st, "safe:nil", g.lbl(x.Pos(), "", x.String()), Neq(v.L[0], Int(0)), "load through nil pointer")
 		}
-		return g.load(st, v, x.Type())
+		r := g.load(st, v, x.Type())
+		if gl, ok := x.X.(*ssa.Global); ok && isPointer(x.Type()) && len(r.L) == 1 && g.eng.initOnlyNonNil(gl) {
+			// written once, by the package initialiser, with &fresh object
+			g.eng.useAssumption("package initialisation completed before the call (init-only global " + gl.RelString(nil) + " is non-nil)")
+			g.assume(st, Neq(r.L[0], Int(0)))
+		}
+		return r
 	case token.ARROW:
 		g.note("channel receive: value havoced, blocking not modelled")
 		return g.freshIn(st, x.Type(), x.Name())
@@ -673,12 +698,23 @@ func (g *gen) convert(st *State, x *ssa.Convert) *Val {
 		r := g.alloc(st, "s2b")
 		et := to.Underlying().(*types.Slice).Elem()
 		g.havocElems(st, r, et, "s2b")
+		if !isByteType(et) {
+			// []rune(s): one element per code point, between len(s)/4 (rounded up) and len(s)
+			ln := Fresh("s2r.len", SInt)
+			g.assumeGlobal(And(Le(Int(0), ln), Le(ln, StrLen(v.L[0])), Le(StrLen(v.L[0]), Mul(Int(4), ln))))
+			return sliceVal(to, r, Int(0), ln, ln)
+		}
 		ln := StrLen(v.L[0])
 		sv := sliceVal(to, r, Int(0), ln, ln)
 		g.str2bytes[r.id] = v.L[0]
 		return sv
 	case isSlice(from) && isString(to):
 		s := Fresh("b2s", SStr)
+		if !isByteType(from.Underlying().(*types.Slice).Elem()) {
+			// string([]rune): every element becomes 1 to 4 bytes
+			g.assumeGlobal(And(Le(v.Len(), StrLen(s)), Le(StrLen(s), Mul(Int(4), v.Len()))))
+			return scalar(to, s)
+		}
 		g.assumeGlobal(Eq(StrLen(s), v.Len()))
 		if src, ok := g.str2bytes[v.Arr().id]; ok && v.Off().IsLit() && v.Off().I.Sign() == 0 {
 			_ = src
@@ -952,7 +988,7 @@ func (g *gen) mapUpdate(st *State, x *ssa.MapUpdate) {
 
 func (g *gen) recordWrite2(k LeafKey, s Sort, ks Sort) {
 	if g.written != nil {
-		g.written[k] = leafMeta{sort: s, keySort: ks}
+		g.written[k] = leafMeta{sort: s, keySort: ks, old: true}
 	}
 }
 
@@ -1043,4 +1079,9 @@ func (g *gen) typeAssert(st *State, x *ssa.TypeAssert) *Val {
 		}
 	}
 	return u
+}
+
+func isByteType(t types.Type) bool {
+	b, ok := t.Underlying().(*types.Basic)
+	return ok && (b.Kind() == types.Uint8 || b.Kind() == types.Int8)
 }
